@@ -878,8 +878,9 @@ fn oracle_with(cmds: &[Cmd], r: &Run, orc: &mut Oracle, rounded: bool) {
         // builder (the adapter copies it: `current_position = curve.to`, `move_to(arc_start)`,
         // `line_to(to)`); Props/C15b.lean `svg_arc_to_semantics_real` / `svg_arc_semantics_real`.
         // Class `arc-zero-sweep`: lyon_geom produces no piece for this arc at this position and a
-        // sub-path was open (the witness predicate of finding C15-arc-zero-sweep-stale-position:
-        // the connecting `line_to(arc_start)` does not update `current_position`).
+        // sub-path was open (the witness predicate of finding C15-arc-zero-sweep-stale-position,
+        // repaired by lyon commit 250152af: the connecting `line_to(arc_start)` did not update
+        // `current_position`; the class stays active).
         if c.is_arc() {
             let last = got.iter().rev().find_map(|g| match *g {
                 Call::B(p) | Call::L(p) | Call::Q(_, p) | Call::C(_, _, p) => Some(p),
@@ -1293,9 +1294,10 @@ fn main() {
             vec![Cmd::M(point(100., 0.)), Cmd::A(ArcP { radii: vector(100., 100.), rot: 0.0, large: false, sweep: false }, point(100., 0.))],
         ),
     ];
-    // witness of finding C15-arc-zero-sweep-stale-position (Props/C15b.lean
-    // svg_arc_zero_sweep_stale_witness): zero-sweep `arc` inside a sub-path, current point 0.05 off
-    // the circle: `line_to(1, 0)` but `current_position` stays (1.05, 0); `l 1 0` is resolved wrongly
+    // witness of finding C15-arc-zero-sweep-stale-position (repaired by lyon commit 250152af;
+    // Props/C15b.lean svg_arc_zero_sweep_repaired): zero-sweep `arc` inside a sub-path, current point
+    // 0.05 off the circle: `line_to(1, 0)`; before the repair `current_position` stayed (1.05, 0) and
+    // `l 1 0` was resolved against it
     let stale: Vec<Cmd> = vec![Cmd::M(point(1.05, 0.)), Cmd::R(point(0., 0.), vector(1., 1.), 0.0, 0.0), Cmd::Lr(vector(1., 0.))];
     let mut fixed = fixed;
     fixed.push(("arc-zero-sweep-stale", stale.clone()));
